@@ -858,10 +858,30 @@ func (h *history) judge(model, after []cfapi.Zone, targets []publish.Target, res
 			}
 			if res.Code == publish.StatusNotFound || res.Code == publish.StatusError {
 				ctr.add("lenient_after_zone_failure", 1)
+				if res.Code == publish.StatusError && rec != nil && nextFailedPatchFor(rec, z) != nil {
+					continue // its own write failed: that is the error it reports
+				}
 				if res.Code == publish.StatusError && rec != nil {
-					if p := nextPatchFor(rec, z); p != nil && p.Applied {
-						h.violate("error:reported-but-written", "target %d %v: error reported although the PATCH was applied", j, t)
-						*rec = p.After.Clone()
+					// a write to this record belongs to this target only if no later target of the same record reports
+					// an update that would otherwise be left without its write (the failed read may have hit this
+					// target alone: a publisher may read per target)
+					later := 0
+					for jj := j + 1; jj < len(targets); jj++ {
+						if targets[jj] == t && results[jj].Code == publish.StatusUpdated {
+							later++
+						}
+					}
+					unusedApplied := 0
+					for i := range patches {
+						if !used[i] && patches[i].RecordID == rec.ID && patches[i].ZoneID == z.ID && patches[i].Applied {
+							unusedApplied++
+						}
+					}
+					if unusedApplied > later {
+						if p := nextPatchFor(rec, z); p != nil && p.Applied {
+							h.violate("error:reported-but-written", "target %d %v: error reported although the PATCH was applied", j, t)
+							*rec = p.After.Clone()
+						}
 					}
 				}
 				continue
